@@ -853,6 +853,45 @@ func MustReport(s *Scenario) []string {
 			doBody(a.Body)
 		}
 	}
+	// duplicates inside groupings nobody uses: goyang converts every grouping,
+	// the reference compilation only expands what is used
+	{
+		gc := &compiler{s: s, out: &Compiled{Trees: map[string]*XNode{}, Identities: map[string][]string{}}, conflicts: map[string]bool{}}
+		var standalone func(m *Mod, g *Grouping)
+		var inNodes func(m *Mod, body []*Node)
+		standalone = func(m *Mod, g *Grouping) {
+			tmp := &XNode{Name: g.Name, Kind: "grouping", Kids: map[string]*XNode{}}
+			gc.gstack = []*Grouping{g}
+			gc.addBody(tmp, m, g.Body)
+			gc.gstack = nil
+			for _, x := range g.Groupings {
+				standalone(m, x)
+			}
+			inNodes(m, g.Body)
+		}
+		inNodes = func(m *Mod, body []*Node) {
+			for _, n := range body {
+				for _, g := range n.Groupings {
+					standalone(m, g)
+				}
+				inNodes(m, n.Kids)
+			}
+		}
+		for _, m := range s.Mods {
+			for _, g := range m.Groupings {
+				standalone(m, g)
+			}
+			inNodes(m, m.Body)
+			for _, a := range m.Augments {
+				inNodes(m, a.Body)
+			}
+		}
+		for _, msg := range gc.out.Conflicts {
+			if strings.HasPrefix(msg, "duplicate ") {
+				out = append(out, "in a grouping: "+msg)
+			}
+		}
+	}
 	// uses cycles anywhere (also among groupings nobody uses)
 	{
 		type gkey struct{ mod, name, scope string }
